@@ -84,3 +84,16 @@ package identity
 //@   props C07 C09
 //@   nopanic
 //@   requires [receiver] v != nil
+
+// Reading an identity: every commit of the chain must hold exactly one tree entry, named "version";
+// anything else (missing, duplicated or extra entries) is refused (C07). Never panics on stored data.
+//@ func read
+//@   props C07 C09
+//@   nopanic
+//@   requires repo != nil
+//@   check [one-version-entry] err == nil ==> (forall k int :: { hashes[k] } 0 <= k && k < len(hashes) ==> repository.treeLen(hashes[k]) == 1 && repository.treeName(hashes[k], 0) == versionEntryName)
+//@   check [has-versions]      err == nil ==> len(hashes) > 0
+//@   loop 1
+//@     invariant forall k int :: { hashes[k] } 0 <= k && k <= rangeindex ==> repository.treeLen(hashes[k]) == 1 && repository.treeName(hashes[k], 0) == versionEntryName
+//@     invariant i != nil && len(i.versions) == rangeindex + 1
+//@     invariant forall k int :: { i.versions[k] } 0 <= k && k < len(i.versions) ==> i.versions[k] != nil
